@@ -228,6 +228,9 @@ func TestVerifC20Race(t *testing.T) {
 			}
 		}()
 	}
+	// the recovery mark of the local host keeps coming back (a manager elsewhere re-marks it), so that the recovery
+	// checker does its full work - including its failure clocks - on every round, concurrently with the manager loop
+	loop(func() { d.rawSet(dcs.JoinPath(pathRecovery, "h2"), nil) })
 	loop(func() { _ = app.stateManager() })
 	loop(func() { hc := app.getLocalNodeState(); _ = app.SetHealthState(app.config.Hostname, hc) })
 	loop(func() { app.checkRecovery(); app.checkCrashRecovery(); app.SetResetupStatus() })
